@@ -760,6 +760,23 @@ func cmdReplay(args []string) {
 	if err := json.Unmarshal(data, rf); err != nil {
 		fatal("%v", err)
 	}
+	if strings.Contains(rf.Obligation, "#dispatch:") {
+		// a structural obligation: decided again by go/types on the current tree
+		e := setup()
+		for _, dc := range e.dispatch {
+			if fmt.Sprintf("%s.%s#dispatch:%s", pkgShort(dc.Pkg), dc.Type, dc.Method) == rf.Obligation {
+				ok, why := dc.holds(e.L)
+				if ok {
+					fmt.Printf("obligation %s holds on the current tree\n", rf.Obligation)
+					os.Exit(0)
+				}
+				fmt.Printf("obligation %s fails on the current tree: %s\n", rf.Obligation, why)
+				os.Exit(1)
+			}
+		}
+		fmt.Printf("obligation %s is no longer declared\n", rf.Obligation)
+		os.Exit(2)
+	}
 	if rf.CallExpr == "" || rf.Inputs == nil {
 		// no stored input (replay budget of the check run, or a solver answer without model): regenerate the
 		// obligation from the current tree, solve it again and replay its model
